@@ -299,7 +299,28 @@ class Classifier(object):
             for g, u in reversed(cases):
                 el = tm.ite(g, u.a[1], el)
             it = mk("map", filtered(self.src, self.elem, allg), tm.lam([self.elem], el))
+            if leaf.init.op == "seq" and len(leaf.init.a) == 0 and allg is tm.TRUE:
+                # pushing f(x) for every x into an empty vector is collect(map(src, f))
+                from .models import _as_vop
+                v = _as_vop(it)
+                if v is not None:
+                    return v
+                return mk("collect", it)
             return mk("extend", leaf.init, it)
+        # a flag that is only ever raised:  s' = s || d(elem)   /   lowered:  s' = s && d(elem)
+        if n.op in ("or", "and") and any(x is s for x in n.a):
+            rest = [x for x in n.a if x is not s]
+            if rest and all(self.free_of_state(x) for x in rest):
+                d = (tm.or_ if n.op == "or" else tm.and_)(*rest)
+                if n.op == "or":
+                    self.kinds.append(("becomes-present", d))
+                    return tm.or_(leaf.init, tm.any_(self.src, tm.lam([self.elem], d)))
+                self.kinds.append(("stays-true", d))
+                return tm.and_(leaf.init, tm.all_(self.src, tm.lam([self.elem], d)))
+        # running maximum / minimum:  s' = ite(s < d, d, s)  (or the mirrored spellings)
+        mm = self.minmax(leaf, n)
+        if mm is not None:
+            return mm
         # overwrite by a state-free value: last writer wins
         if cases and all(self.free_of_state(g) and self.free_of_state(u) for g, u in cases):
             self.kinds.append(("overwrite", cases))
@@ -307,8 +328,46 @@ class Classifier(object):
             for g, u in cases:
                 out = mk("fold_last", filtered(self.src, self.elem, g), tm.lam([self.elem], u), out)
             return out
+        # a single loop-carried value updated from itself and the element, on every iteration: the same
+        # term Iterator::fold produces (downstream recognisers treat both spellings alike)
+        if (tm.free_syms(n) & self.state_syms) <= frozenset([s]) and \
+                not any(t.op in ("in_loop", "loop_pick") or
+                        (t.op in ("retain", "map_inplace", "push", "extend", "setidx", "upd_first") and isinstance(t.a[0], tm.T)
+                         and s in tm.free_syms(t.a[0]))
+                        for t in tm.subterms(n)):
+            self.kinds.append(("fold", None))
+            return mk("fold", self.src, leaf.init, tm.lam([s, self.elem], n))
         self.general.append((s, n))
         return mk("foldgen", self.uid, len(self.general) - 1)
+
+    def minmax(self, leaf, n):
+        s = leaf.sym
+        if n.op != "ite" or n.a[0].op not in ("lt", "le"):
+            return None
+        c, a, b = n.a
+        x, y = c.a
+        d = None
+        kind = None
+        if a is not s and b is s and self.free_of_state(a):
+            d = a
+            if x is s and y is d:
+                kind = "max"          # s < d -> d
+            elif x is d and y is s:
+                kind = "min"          # d < s -> d
+        elif a is s and b is not s and self.free_of_state(b):
+            d = b
+            if x is s and y is d:
+                kind = "min"          # s < d -> s else d
+            elif x is d and y is s:
+                kind = "max"          # d < s -> s else d
+        if kind is None or d is None:
+            return None
+        self.kinds.append((kind + "-recurrence", [(tm.TRUE, d)]))
+        m = mk("map", self.src, tm.lam([self.elem], d))
+        best = mk(kind + "_of", m)
+        if leaf.init is tm.ZERO and kind == "max":
+            return tm.ite(mk("nonempty", m), best, tm.ZERO)         # lengths / non-negative quantities start at 0
+        return tm.ite(mk("nonempty", m), mk(kind, leaf.init, best), leaf.init)
 
     def option_sum(self, leaf, n):
         """Option<acc>: None -> Some(d), Some(a) -> Some(a + d): a commutative sum that starts at the
